@@ -70,6 +70,7 @@ structure Thread where
   ops : List Op
   pc : PC
   own : Option Key        -- (kind, id) obtained last and not released through relOwn
+  hb : Bool               -- the heartbeat goroutine started by the claim is still running
 
 /-- What an outside observer sees, in the order it happens. -/
 inductive Ev where
@@ -79,6 +80,7 @@ inductive Ev where
   | relo (tid kind id : Nat)                -- release-own: the caller releases the id it holds (NodeIDAllocator.Release)
   | rnw (tid kind id : Nat)
   | nop (tid : Nat)
+  | dead (tid kind id : Nat)                -- the heartbeat tick of holder `tid` found no heartbeat running: nothing renewed
   | err (tid : Nat)                         -- the call returned a (storage) error to its caller
   | tick (dt : Nat)
 deriving DecidableEq, Repr
@@ -88,6 +90,7 @@ structure Params where
   ttl : Nat → Nat         -- marker TTL per kind
   maxAtt : Nat → Nat      -- attempts per kind (`MaxAttempts`; number of node slots)
   renewShared : Bool      -- renewal writes the tier the claim lives in (repaired code); false = as found
+  hbSurvives : Bool       -- the heartbeat outlives `AllocateNodeID` (it gets the caller's ctx); false = seeded defect
 
 structure Cfg where
   store : Store
@@ -115,7 +118,7 @@ def failEvs (P : Params) (tid kind a : Nat) : List Ev :=
 def okCfg (P : Params) (c : Cfg) (tid kind id : Nat) (t : Thread) (locks : List Nat) : Cfg :=
   { c with store := put c.store (kind, id) (expiry c.now (P.ttl kind)),
            locks := locks,
-           threads := upd c.threads tid { finishOp t with own := some (kind, id) },
+           threads := upd c.threads tid { finishOp t with own := some (kind, id), hb := P.hbSurvives },
            trace := c.trace ++ [.ok tid kind id] }
 
 def failCfg (P : Params) (c : Cfg) (tid kind a : Nat) (t : Thread) : Cfg :=
@@ -138,12 +141,17 @@ def stepThread (P : Params) (c : Cfg) (tid : Nat) : Cfg :=
                threads := upd c.threads tid { finishOp (c.threads tid) with own := none },
                trace := c.trace ++ [.relo tid k.1 k.2] }
   | .renewOwn :: _ =>
+    -- the 30 s ticker of the holder's heartbeat fires
     match (c.threads tid).own with
     | none => { c with threads := upd c.threads tid (finishOp (c.threads tid)), trace := c.trace ++ [.nop tid] }
     | some k =>
-      { c with store := if P.renewShared then put c.store k (expiry c.now (P.ttl k.1)) else c.store,
-               threads := upd c.threads tid (finishOp (c.threads tid)),
-               trace := c.trace ++ [.rnw tid k.1 k.2] }
+      if (c.threads tid).hb then
+        { c with store := if P.renewShared then put c.store k (expiry c.now (P.ttl k.1)) else c.store,
+                 threads := upd c.threads tid (finishOp (c.threads tid)),
+                 trace := c.trace ++ [.rnw tid k.1 k.2] }
+      else
+        { c with threads := upd c.threads tid (finishOp (c.threads tid)),
+                 trace := c.trace ++ [.dead tid k.1 k.2] }
   | .gen kind cands :: _ =>
     match (c.threads tid).pc with
     | .try_ a =>
@@ -201,13 +209,13 @@ def step (P : Params) (c : Cfg) : Sch → Cfg
 
 def run (P : Params) (c : Cfg) (σ : List Sch) : Cfg := σ.foldl (step P) c
 
-def mkThread (p : Nat × List Op) : Thread := ⟨p.1, p.2, .try_ 0, none⟩
+def mkThread (p : Nat × List Op) : Thread := ⟨p.1, p.2, .try_ 0, none, false⟩
 
 /-- Threads `0..n-1` run the given programs, every other index is an idle thread. -/
 def mkThreads (progs : List (Nat × List Op)) : Nat → Thread :=
   fun i => match progs[i]? with
     | some p => mkThread p
-    | none => ⟨0, [], .try_ 0, none⟩
+    | none => ⟨0, [], .try_ 0, none, false⟩
 
 def init (pre : Store) (progs : List (Nat × List Op)) : Cfg := ⟨pre, 0, [], mkThreads progs, []⟩
 
